@@ -121,11 +121,14 @@ class C20(Prop):
             "multi-repo workspace whose root is no repository, bare repo, no repo) and AI work in flight: (a) truncation "
             "of a valid payload at EVERY byte offset (quick: every 3rd), delivered as argv and as stdin with EOF; (b) every "
             "field deleted and flipped to 8 other JSON types, oversize (1.2 MB) and non-JSON payloads, duplicated delivery; "
-            "(c) the named file absolute / relative / missing / outside / in the nested repo / in the sibling repo / in "
+            "(b') the same for a second event shape of the preset where it has one (VS Code native Copilot hooks, Claude "
+            "PreToolUse, Cursor beforeSubmitPrompt, ai_tab before_edit); (c) the named file absolute / relative / multi-byte "
+            "first character / missing / outside / in the nested repo / in the sibling repo / in "
             "the bare repo / nowhere, started from each layout's directories. Oracle per delivery: exit status 0, no panic "
             "text, within the watchdog; afterwards every checkpoints.jsonl in every repository parses line by line, every "
             "entry names a relative path without '..' whose nearest enclosing repository is the one holding the log, and "
-            "files in no repository produced no state; finally the in-flight work must still commit through the wrapper. evaluations = deliveries; distinct = (preset, fault label class, layout, outcome)")
+            "files in no repository produced no state; one report naming files of several repositories (outer + nested, siblings, "
+            "both orders, started from the workspace root) leaves a new AI entry for each file in the repository that contains it; finally the in-flight work must still commit through the wrapper. evaluations = deliveries; distinct = (preset, fault label class, layout, outcome)")
     assumptions = ["transcript fixtures shipped in /repo/tests/fixtures are used for presets that re-fetch transcripts",
                    "payload shapes are built from the field names the presets read; a preset rejecting a seed payload "
                    "still has to exit 0"]
